@@ -41,7 +41,10 @@ def run(r):
             n += check_role_forwarding(r, "C03-DELEG", q, e["term"], e.node, key=callee.rsplit(".", 1)[1] + " ")
     from ..ssa import leaves
     from ..rules import lift_ite
-    cross = [leaf for g, leaf in leaves(lift_ite(strip_all(s.ret))) if any(nn.R._role_of(q, c[2]) == "SEQS2" and not pol for c, pol in g if c[0] == "cmp")]
+    def second_given(c, pol):
+        # seqs2 is None (false branch) / seqs2 is not None (true branch)
+        return c[0] == "cmp" and nn.R._role_of(q, c[2]) == "SEQS2" and c[3] == ("const", "NoneType", None) and ((c[1] in ("is", "==") and not pol) or (c[1] in ("isnot", "!=") and pol))
+    cross = [leaf for g, leaf in leaves(lift_ite(strip_all(s.ret))) if any(second_given(c, pol) for c, pol in g)]
     ok = len(cross) == 1 and resolve_callee(nn, q, cross[0])[0] == MOD + "SymdelDB.lookup"
     rep.ob("C03-DELEG", q, ok, "with a second collection symdel returns SymdelDB(seqs, max_edits).lookup(seqs2, ...) unmodified", wh(r, q, s.func.node),
            expected="return symdeldb.lookup(seqs2, ...)", found=show(cross[0], 80) if cross else "no two-collection return path", key="delegation return")
